@@ -114,6 +114,38 @@ def declared_stream(res):
                                      'undeclared names used: %r, listed: %r' % (unknown, names)))
 
 
+def package_list_stream(res):
+    """a package of the document counts as loaded however its name is written
+    in the list of \\usepackage: blanks, tabs, line breaks
+    and comments around the names, the closing brace on a line of its own,
+    several lists; the macros it declares are not listed, an undeclared
+    name behind them is.  With pack='' only the document loads packages."""
+    uses = [('xcolor', '\\textcolor{red}{x}'), ('graphicx', '\\includegraphics{f}'),
+            ('amsmath', '\\eqref{e}'), ('hyperref', '\\url{u}')]
+    lists = ['{%s,%s}', '{ %s , %s }', '{\n  %s,\n  %s\n}', '{%s ,%s\t}', '{%s,%s\n}',
+             '{%%\n  %s,%%\n  %s%%\n}', '{%s, %s }', '{\t%s,\n%s \n }', '[opt]{%s ,\n %s\n}']
+    cases, want = [], {}
+    for cmd in ('\\usepackage',):
+        for lay in lists:
+            for (p1, u1), (p2, u2) in ((uses[0], uses[1]), (uses[2], uses[3]), (uses[1], uses[2])):
+                tex = cmd + (lay % (p1, p2)) + '\nAlpha ' + u1 + ' beta ' + u2 + ' \\foo gamma.\n'
+                for pack in ('', '*'):
+                    c = parsecase.T2T(tex, lang='en', pack=pack, unkn=True, files={})
+                    want[(tex, pack)] = ['\\foo']
+                    cases.append((c, None, 'pkglist'))
+
+    def oracle_pk(c, d, kind, im):
+        w = want.get((c.latex, c.pack))
+        if w is None or im[0] != 'OK':
+            return None
+        names = [n for n in im[1][1].split('\n') if n]
+        if names != w:
+            return ('packages loaded by the document declare the macros used; undeclared '
+                    'names used in text: %r, listed: %r' % (w, names))
+        return None
+    universe.run(cases, res, 'pkglist', project, oracle_pk)
+
+
 def glossary_stream(res):
     """glossary entries whose text holds an undeclared macro: every way of
     referring to the entry uses that macro in text, under its own name"""
@@ -235,6 +267,7 @@ def run(tier, seed, build, res):
     repl_stream(res)
     text_env_stream(res)
     declared_stream(res)
+    package_list_stream(res)
     glossary_stream(res)
     shell_stream(rng, res, 3)
 
